@@ -200,6 +200,8 @@ def v_time(s):
         return ACCEPT
     if any(ch not in TIME_CHARS and not _is_nd(ch) and not ch.isspace() for ch in s):
         return REJECT
+    if any(ch in "Zz" for ch in s.rstrip()[:-1]):
+        return REJECT          # the UTC designator can only end a time: no reading of ISO 8601 has anything after it
     return UNSPEC
 
 
